@@ -359,13 +359,19 @@ class EList(ECollection, list):
                 self._update_opposite(y, self.owner)
         super().__setitem__(i, y)
         kind = Kind.ADD
-        if is_collection and len(y) > 1:
-            kind = Kind.ADD_MANY
-        elif is_collection:
-            y = y[0] if y else y
-        self.owner.notify(Notification(new=y,
-                                       feature=self.feature,
-                                       kind=kind))
+        if isinstance(i, slice) and is_collection:
+            # what the slice received (an element that happens to be
+            # iterable, as a str, stays one element when assigned by index)
+            if len(y) > 1:
+                kind = Kind.ADD_MANY
+            elif y:
+                y = y[0]
+            else:
+                kind = None  # nothing came in: there is nothing to report
+        if kind is not None:
+            self.owner.notify(Notification(new=y,
+                                           feature=self.feature,
+                                           kind=kind))
         self.owner._isset[self.feature] = None
 
 
